@@ -56,7 +56,35 @@ func judgeC09(c *Ctx, cs C09Case) {
 	}
 }
 
+// C09Long: a long expression in canonical spelling and with case variants of its later ids.
+type C09Long struct {
+	E1      ev.QS   `json:"canonical"`
+	E2      ev.QS   `json:"variant"`
+	Allowed []ev.QS `json:"allowed"`
+}
+
+func judgeC09Long(c *Ctx, cs C09Long) {
+	e1, e2, allowed := string(cs.E1), string(cs.E2), ev.Strs(cs.Allowed)
+	v1, v2 := c.Valid(e1), c.Valid(e2)
+	s1, s2 := c.Sat(e1, allowed), c.Sat(e2, allowed)
+	x1, x2 := c.Ext(e1), c.Ext(e2)
+	c.Inc("long_expression_case_checks")
+	if v1 != v2 || s1.IsErr != s2.IsErr || s1.OK != s2.OK || !eqStrs(x1.List, x2.List) {
+		c.Violation("case:long-expression", "C09.long", cs,
+			"a long expression (%d bytes) and the same expression with case variants of its later ids differ: valid %v/%v, Satisfies %s/%s, ExtractLicenses %d/%d terms", len(e1), v1, v2, s1, s2, len(x1.List), len(x2.List))
+	}
+}
+
 func replayC09(c *Ctx, rule string, raw json.RawMessage) {
+	if rule == "C09.long" {
+		var cs C09Long
+		if err := json.Unmarshal(raw, &cs); err != nil {
+			fmt.Println("bad case:", err)
+			return
+		}
+		judgeC09Long(c, cs)
+		return
+	}
 	var cs C09Case
 	if err := json.Unmarshal(raw, &cs); err != nil {
 		fmt.Println("bad case:", err)
@@ -272,18 +300,11 @@ func runC09(c *Ctx, phase string) {
 		}
 		op := []string{" AND ", " OR "}[bi%2]
 		e1, e2 := strings.Join(canon, op), strings.Join(variant, op)
-		v1, v2 := c.Valid(e1), c.Valid(e2)
 		allowed := []string{canon[n-1], canon[n/2], "MIT"}
 		if bi%4 < 2 {
 			allowed = canon[:n-1] // everything but the last term
 		}
-		s1, s2 := c.Sat(e1, allowed), c.Sat(e2, allowed)
-		x1, x2 := c.Ext(e1), c.Ext(e2)
-		c.Inc("long_expression_case_checks")
-		if v1 != v2 || s1.IsErr != s2.IsErr || s1.OK != s2.OK || !eqStrs(x1.List, x2.List) {
-			c.Violation("case:long-expression", "C09.long", C09Case{ID: "<long>", Expr: ev.QS(e2[:300])},
-				"a %d-term expression and the same expression with case variants of its later ids differ: valid %v/%v, Satisfies %s/%s, ExtractLicenses %d/%d terms", n, v1, v2, s1, s2, len(x1.List), len(x2.List))
-		}
+		judgeC09Long(c, C09Long{E1: ev.QS(e1), E2: ev.QS(e2), Allowed: ev.QSs(allowed)})
 	}
 	// exception ids: varied after WITH
 	for _, e := range u.Exceptions {
